@@ -1,1 +1,89 @@
-/-! # C13 — property theorems (to be filled in) -/
+import JokerVerif.Lemmas.CacheLemmas
+/-!
+# C13 — failures propagate and never leak cache files or damage user files
+
+Property theorems only (model: `Model/Cache.lean`).  Every statement is for every initial file-system state
+`s0`, every temp-file name `f` not already in use, every list of steps allowed in the `try` block (`BlockOK f`:
+only the cache file `f` itself may be re-created / removed, user paths are opened read-only; for file-name
+input `InnerOK`: no temp-file steps at all) — of any length — and every fault: none, at the creation of the temp file, or at ANY step `k` of the `try` block.
+Crashes that are not Python exceptions (SIGKILL, power loss) are outside model and property.
+-/
+namespace Cache
+
+/-- no temporary file survives the call, whatever the fault position: final `tmp` = initial `tmp` -/
+theorem no_leak (s0 : St) (f : Nat) (hf : f ∉ s0.tmp) (blk : List Step) (h : BlockOK f blk) (fl : Fault) :
+    (objectCall s0 f blk fl).1.tmp = s0.tmp := by
+  rw [objectCall_state s0 f hf blk h fl]
+
+/-- a fault yields an exception at the top level (nothing swallows it); no fault yields a value -/
+theorem exception_propagates (s0 : St) (f : Nat) (blk : List Step) (fl : Fault) :
+    ((objectCall s0 f blk fl).2 = true ↔ fl ≠ Fault.none) ∧
+    ((fileCall s0 blk fl).2 = true ↔ fl ≠ Fault.none) := by
+  cases fl <;> simp [objectCall, fileCall, Fault.raised]
+
+/-- user files are only ever opened read-only: the "written" flag is unchanged, for object input (where the
+call never needs the user's file) and for file-name input (where it reads it) -/
+theorem user_file_untouched (s0 : St) (f : Nat) (hf : f ∉ s0.tmp) (blk : List Step) (h : BlockOK f blk)
+    (inner : List Step) (hi : InnerOK inner) (fl : Fault) :
+    (objectCall s0 f blk fl).1.userWritten = s0.userWritten ∧
+    (fileCall s0 inner fl).1.userWritten = s0.userWritten := by
+  rw [objectCall_state s0 f hf blk h fl, fileCall_state s0 inner hi fl]
+  exact ⟨rfl, rfl⟩
+
+/-- the machine's post-state equals its pre-state, failing or not: the next call starts exactly where a
+first call would (history independence of the helper itself is C05) -/
+theorem next_call_clean (s0 : St) (f : Nat) (hf : f ∉ s0.tmp) (blk : List Step) (h : BlockOK f blk)
+    (inner : List Step) (hi : InnerOK inner) (fl : Fault) :
+    (objectCall s0 f blk fl).1 = s0 ∧ (fileCall s0 inner fl).1 = s0 :=
+  ⟨objectCall_state s0 f hf blk h fl, fileCall_state s0 inner hi fl⟩
+
+/-- trace inclusion, object input: every observed trace (with its "an exception reached the caller" flag)
+that the driver's recogniser accepts is the trace of a model run with an allowed try block, so the theorems
+above apply to it: replaying the OBSERVED steps from `s0` ends in `s0` -/
+theorem observed_object_trace_is_run (s0 : St) (tr : List Step) (r : Bool) (f : Nat) (blk : List Step)
+    (fl : Fault) (hm : matchObject s0 tr r = some (f, blk, fl)) (hf : f ∉ s0.tmp) :
+    tr.foldl apply s0 = s0 ∧ (objectCall s0 f blk fl).2 = r := by
+  obtain ⟨hok, htr, hr⟩ := matchObject_sound s0 tr r f blk fl hm
+  refine ⟨?_, hr⟩
+  have := objectCall_state s0 f hf blk hok fl
+  unfold objectCall at this
+  rw [htr] at this
+  exact this
+
+/-- trace inclusion, file-name input -/
+theorem observed_file_trace_is_run (s0 : St) (tr : List Step) (r : Bool) (inner : List Step) (fl : Fault)
+    (hm : matchFile tr r = some (inner, fl)) :
+    tr.foldl apply s0 = s0 ∧ (fileCall s0 inner fl).2 = r := by
+  obtain ⟨hok, htr, hr⟩ := matchFile_sound tr r inner fl hm
+  refine ⟨?_, hr⟩
+  have := fileCall_state s0 inner hok fl
+  unfold fileCall at this
+  rw [htr] at this
+  exact this
+
+-- non-vacuity: the try block the real code runs (the HDF5 writer removes and re-creates the cache file),
+-- other temp files present, faults at several positions
+private def blkEx : List Step :=
+  [.writeTemp 7, .unlink 7, .openTemp 7 .rw, .mkTemp 7, .openTemp 7 .ro, .body "read_batch", .body "pool.map", .body "unpack"]
+private def s3 : St := ⟨[3, 4], false⟩
+example : BlockOK 7 blkEx := all_okFor (by decide)
+-- no fault
+example : objectTrace s3 7 blkEx .none = [.mkTemp 7] ++ blkEx ++ [.unlink 7] := by decide
+example : objectCall s3 7 blkEx .none = (s3, false) := by decide
+-- fault while reading: the file exists, it is unlinked
+example : objectTrace s3 7 blkEx (.step 5)
+    = [.mkTemp 7, .writeTemp 7, .unlink 7, .openTemp 7 .rw, .mkTemp 7, .openTemp 7 .ro, .body "read_batch", .unlink 7] := by
+  decide
+-- fault between the writer's remove and re-create: nothing left to unlink, still no leak
+example : objectTrace s3 7 blkEx (.step 2) = [.mkTemp 7, .writeTemp 7, .unlink 7, .openTemp 7 .rw] := by decide
+example : objectCall s3 7 blkEx (.step 2) = (s3, true) := by decide
+example : matchObject s3 [.mkTemp 7, .writeTemp 7, .unlink 7, .openTemp 7 .rw] true
+    = some (7, [.writeTemp 7, .unlink 7, .openTemp 7 .rw], .step 3) := by decide
+-- the recogniser refuses a leaking trace, a foreign temp file and a user file opened writable
+example : matchObject s3 [.mkTemp 7, .writeTemp 7, .body "pool.map"] true = none := by decide
+example : matchObject s3 [.mkTemp 7, .writeTemp 7, .mkTemp 8, .unlink 7] false = none := by decide
+example : matchFile [.openUser 1 .ro, .openUser 1 .rw] false = none := by decide
+-- without the `finally` the state is NOT restored (the theorem is not trivially true of any machine)
+example : ([Step.mkTemp 7, .writeTemp 7, .body "pool.map"].foldl apply ⟨[3], false⟩).tmp = [7, 3] := by decide
+
+end Cache
